@@ -103,48 +103,17 @@ var rfcConsts = []struct {
 var headerMinSize = map[string]int{"Ethernet": 14, "ARP": 28, "IPv4": 20, "IPv6": 40, "IPv6Fragment": 8, "ICMPv4": 4, "ICMPv6": 4, "UDP": 8, "TCP": 20}
 
 func propC15(c *Ctx) {
-	c.Explanation = "Decides completely, for all field values, the fixed-offset part of the header codecs by bit-provenance evaluation (each bit of a value is a constant, a bit of the buffer or a bit of a parameter; no execution): (B1) RFC layout - every integer getter returns exactly the buffer bits the RFC diagram assigns to the field (independent table transcribed from RFC 791/8200/792/4443/768/793/826 and IEEE 802.3), every setter and Encode writes exactly those bits from exactly the corresponding parameter bits, address accessors slice exactly the RFC byte ranges; round trip follows (getter o encoder is the identity on every field bit; the bits an encoder drops are exactly the granularity bits: IHL and DataOffset low 2 bits, fragment offset low 3 bits); Encode never writes a bit twice and never beyond the header's minimum size; version nibbles are the RFC constants; (B2) option codecs - each Encode*Option writes kind, length and big-endian value and returns its length, every (kind,length) pair an encoder produces is accepted by both parsers with the same length; (B3) the option parsers and encoders never index outside their slice arguments (interval + linear-fact analysis, shared with C07) and the parser loops always advance; (B4) the Internet checksum's carry handling - every 32->16-bit narrowing in checksum.go is either lossless, the extraction of the two halves fed to ChecksumCombine, or an end-around-carry fold that is complete for the whole range of its operand (so no carry is dropped); the accumulator is 32 bits wide; the odd trailing byte is added as the high byte. (B4w) every 16-bit word handed to Checksum (initial value) or ChecksumCombine anywhere in the module, incl. the partial-checksum helpers, is free of 16-bit arithmetic that can wrap and of lossy narrowing (interval evaluation of the operands). B2 also requires every encoder's room test and written length to be derivable from its body (SACK block count within [1,4] at the stores). NOT decided: that Checksum equals the RFC 1071 sum for every buffer (needs induction over the loop), accumulator overflow for buffers beyond 64 KiB, DNS variable-length parsing."
+	c.Explanation = "Decides completely, for all field values, the fixed-offset part of the header codecs by bit-provenance evaluation (each bit of a value is a constant, a bit of the buffer or a bit of a parameter; no execution): (B1) RFC layout - every integer getter returns exactly the buffer bits the RFC diagram assigns to the field (independent table transcribed from RFC 791/8200/792/4443/768/793/826 and IEEE 802.3), every setter and Encode writes exactly those bits from exactly the corresponding parameter bits, address accessors slice exactly the RFC byte ranges; round trip follows (getter o encoder is the identity on every field bit; the bits an encoder drops are exactly the granularity bits: IHL and DataOffset low 2 bits, fragment offset low 3 bits); Encode never writes a bit twice and never beyond the header's minimum size; version nibbles are the RFC constants; (B2) option codecs - each Encode*Option writes kind, length and big-endian value and returns its length, every (kind,length) pair an encoder produces is accepted by both parsers with the same length; (B3) the option parsers and encoders never index outside their slice arguments (interval + linear-fact analysis, shared with C07) and the parser loops always advance; (B4) the Internet checksum's carry handling - every 32->16-bit narrowing in checksum.go is either lossless, the extraction of the two halves fed to ChecksumCombine, or an end-around-carry fold that is complete for the whole range of its operand (so no carry is dropped); the accumulator is 32 bits wide; the odd trailing byte is added as the high byte. (B4w) every 16-bit word handed to Checksum (initial value) or ChecksumCombine anywhere in the module, incl. the partial-checksum helpers, is free of 16-bit arithmetic that can wrap and of lossy narrowing (interval evaluation of the operands). B2 also requires every encoder's room test and written length to be derivable from its body (SACK block count within [1,4] at the stores). (B5) what the per-protocol checksum helpers sum over: IPv4 exactly the IHL header bytes, TCP the data-offset bytes, UDP 8 bytes, pseudo-header = source, destination, (0, protocol) (shared with C06/E1). (B6) the header codecs narrow only at the reviewed byte extractions and folds. NOT decided: that Checksum equals the RFC 1071 sum for every buffer (needs induction over the loop), accumulator overflow for buffers beyond 64 KiB, DNS variable-length parsing."
 	c.Assumptions = []string{"encoding/binary.BigEndian semantics", "RFC layout table in prop_c15.go transcribed by hand from the RFCs"}
 	bp := &bitprov{p: c.P}
+	headerChecksumHelpersRule(c, c.Rule("B5", "K7 exact site tables (shared with C06/E1)", "what the per-protocol checksum helpers sum over: IPv4 exactly the IHL header bytes, TCP the data-offset bytes, UDP 8 bytes, after the pseudo-header length word; the pseudo-header is source, destination, (0, protocol)", 10))
+	c.NoNewNarrowing(c.Rule("B6", "K8 narrowing (closed world, reviewed table)", "the header codecs narrow only at the reviewed byte extractions and folds", 10), []string{"/protocol/header", "/protocol"}, narrowHeader)
 	b1 := c.Rule("B1", "K9 bitprov", "accessor/encoder bit maps == RFC layout", 120)
 
 	method := func(typ, name string) *ssa.Function {
 		return c.P.Func("header." + typ + "." + name)
 	}
-	// getters
-	for _, f := range rfcFields {
-		pos := ""
-		if f.Getter != "" {
-			fn := method(f.Typ, f.Getter)
-			key := "header." + f.Typ + "." + f.Getter + "/layout:" + f.Field
-			if fn == nil {
-				c.Broken(b1, "anchor-unresolved:header."+f.Typ+"."+f.Getter, "getter not found")
-			} else {
-				pos = c.P.Pos(fn.Pos())
-				r := bp.evalMethod(fn)
-				if r.Err != "" || len(r.Returns) == 0 || r.Returns[0].bits == nil {
-					c.Bad(b1, key+"/undecided", pos, "getter left the straight-line class: "+r.Err)
-				} else {
-					got := r.Returns[0].bits
-					want := bzero(len(got))
-					for j := 0; j < f.Width && j+f.GShift < len(want); j++ {
-						want[j+f.GShift] = fieldBit(f.Start, f.Width, j)
-					}
-					c.Check(bvecEq(got, want), b1, key, pos, fmt.Sprintf("%s: bits %d..%d of the header (%s)", f.Field, f.Start, f.Start+f.Width-1, f.RFC), fmt.Sprintf("getter reads %s; %s places %s at bits %d..%d: %s", bvecStr(got), f.RFC, f.Field, f.Start, f.Start+f.Width-1, bvecStr(want)))
-				}
-			}
-		}
-		if f.Setter != "" {
-			fn := method(f.Typ, f.Setter)
-			key := "header." + f.Typ + "." + f.Setter + "/layout:" + f.Field
-			if fn == nil {
-				c.Broken(b1, "anchor-unresolved:header."+f.Typ+"."+f.Setter, "setter not found")
-			} else {
-				r := bp.evalMethod(fn)
-				c.checkWrites(b1, key, c.P.Pos(fn.Pos()), r, "$1", f, 0)
-			}
-		}
-	}
+	c.fieldAccessorLayouts(b1, bp, func(fieldLayout) bool { return true })
 	for _, s := range rfcSlices {
 		if s.Getter != "" {
 			fn := method(s.Typ, s.Getter)
@@ -772,4 +741,52 @@ func isHalfExtraction(cv *ssa.Convert) bool {
 		}
 	}
 	return false
+}
+
+// fieldAccessorLayouts decides, for the fixed-offset fields selected by want,
+// that the getter returns exactly the field's bits (shifted by the accessor's
+// unit) and the setter writes exactly them. B1 runs it for every field; the
+// properties that consume a field run it for theirs (C08: fragment fields;
+// C11: UDP; C13: ICMP; C01/C03/C04: TCP).
+func (c *Ctx) fieldAccessorLayouts(b1 string, bp *bitprov, want func(fieldLayout) bool) {
+	method := func(typ, name string) *ssa.Function {
+		return c.P.Func("header." + typ + "." + name)
+	}
+	// getters
+	for _, f := range rfcFields {
+		if !want(f) {
+			continue
+		}
+		pos := ""
+		if f.Getter != "" {
+			fn := method(f.Typ, f.Getter)
+			key := "header." + f.Typ + "." + f.Getter + "/layout:" + f.Field
+			if fn == nil {
+				c.Broken(b1, "anchor-unresolved:header."+f.Typ+"."+f.Getter, "getter not found")
+			} else {
+				pos = c.P.Pos(fn.Pos())
+				r := bp.evalMethod(fn)
+				if r.Err != "" || len(r.Returns) == 0 || r.Returns[0].bits == nil {
+					c.Bad(b1, key+"/undecided", pos, "getter left the straight-line class: "+r.Err)
+				} else {
+					got := r.Returns[0].bits
+					want := bzero(len(got))
+					for j := 0; j < f.Width && j+f.GShift < len(want); j++ {
+						want[j+f.GShift] = fieldBit(f.Start, f.Width, j)
+					}
+					c.Check(bvecEq(got, want), b1, key, pos, fmt.Sprintf("%s: bits %d..%d of the header (%s)", f.Field, f.Start, f.Start+f.Width-1, f.RFC), fmt.Sprintf("getter reads %s; %s places %s at bits %d..%d: %s", bvecStr(got), f.RFC, f.Field, f.Start, f.Start+f.Width-1, bvecStr(want)))
+				}
+			}
+		}
+		if f.Setter != "" {
+			fn := method(f.Typ, f.Setter)
+			key := "header." + f.Typ + "." + f.Setter + "/layout:" + f.Field
+			if fn == nil {
+				c.Broken(b1, "anchor-unresolved:header."+f.Typ+"."+f.Setter, "setter not found")
+			} else {
+				r := bp.evalMethod(fn)
+				c.checkWrites(b1, key, c.P.Pos(fn.Pos()), r, "$1", f, 0)
+			}
+		}
+	}
 }
